@@ -727,6 +727,7 @@ def _to_py(v):
     if type(v) is SymF64: return SymPyFloat(v.e)
     if type(v) is SymI64: return SymPyInt(v.e)
     if type(v) is SymBool: return symx.SymPyBool(v.e)
+    if type(v) in (SymDT, symx.SymTD): return v.item()
     return v
 
 def _obj_scalar(c):
